@@ -105,6 +105,9 @@ Proof.
 Qed.
 
 (** ---- case folding on one character ---- *)
+Lemma ci_eqc_lower_refl : forall c, is_upper c = false -> ci_eqc c c = true.
+Proof. intros c H. unfold ci_eqc, to_lower. rewrite H, N.eqb_refl. reflexivity. Qed.
+
 (** a pattern character that is not a letter matches only itself *)
 Lemma ci_eqc_nonletter : forall c x, is_lower c = false -> is_upper c = false -> ci_eqc c x = true -> x = c.
 Proof.
